@@ -3,6 +3,7 @@ package main
 // C01: generated Go compiles.
 
 import (
+	"strconv"
 	"fmt"
 	"go/ast"
 	"go/constant"
@@ -19,7 +20,10 @@ var goGenerators = []string{"generator/go/gounions", "generator/go/randdata", "g
 
 func checkC01(w *World, r *Result) {
 	r.Explanation = "Decides, on the template language of the three Go generators (every Declaration content is abstractly evaluated from the generator source into a sketch: literal text, typed holes, repetitions, alternatives; 0 unclassified holes required): TPL-1 every instantiation (repetitions 0..2, thorough 0..3; every alternative chosen) parses as Go; TPL-3 no comma-separated list can contain an empty element; PRINTF every constant format has exactly the arguments it needs (no %!s(MISSING)/%!(EXTRA)); TPL-2 a stub type-check of the instantiations with holes declared as opaque types reports no literal selector on a user type and no literal identifier that neither the standard library nor a sibling template defines; AGR-C01a in randdata the declaration ID, the generated function name and the name used at call sites come from the same functionID, and the literal names of the basic generators equal go/types' names of their kinds; AGR-C01c every <T>ArrayToPQ / Scan<T>Array a template calls is declared by idArrayConverters(<T>) in the same function under no stronger condition (apart from the documented generateArrayConverter test); AGR-C01q type names are printed relative to the package the generated file belongs to; DECL-ID declaration IDs cover what their content reads (no two different declarations merged, none duplicated). Does not decide: well-formedness of hole fillers for every input (type strings of foreign generic types, identifier collisions between user types), import completeness after goimports. Known: NewDateFrom/.Time() convention required from the user package for local date types."
-	r.Rules = []string{"TPL-1", "TPL-3", "PRINTF", "TPL-2", "AGR-C01a", "AGR-C01c", "AGR-C01q", "AGR-C01u", "AGR-C01g", "TYPE-SRC", "AGR-C15d", "UTF8-SLICE", "DECL-ID", "GEN-ID", "PKG-ID", "ALIAS-APPEND"}
+	r.Rules = []string{"TPL-1", "TPL-3", "PRINTF", "TPL-2", "AGR-C01a", "AGR-C01c", "AGR-C01q", "AGR-C01u", "AGR-C01g", "TYPE-SRC", "AGR-C15d", "UTF8-SLICE", "DECL-ID", "GEN-ID", "PKG-ID", "ALIAS-APPEND", "CACHE-DROP", "AGR-C11c"}
+	// the union table consumed by the templates: candidates are the defined named types of the scope, each once (rule shared with C11)
+	checkCandidates(w, r)
+	cacheDropRule(w, r, func(rel string) bool { return rel == "generator/go/gounions" || rel == "generator/go/randdata" || rel == "generator/go/sqlcrud" })
 	aliasAppendRule(w, r, func(rel string) bool { return rel == "generator" || rel == "generator/go/gounions" || rel == "generator/go/randdata" || rel == "generator/go/sqlcrud" || rel == "analysis/sql" })
 	r.Assumptions = []string{"holes of class IDENT/TYPE are filled with well-formed Go identifiers/type expressions (they come from go/types)", "goimports adds/removes imports of the standard library and of the packages listed in the header"}
 	maxRep := 2
@@ -31,6 +35,11 @@ func checkC01(w *World, r *Result) {
 		np += printfRule(w, r, rel)
 	}
 	r.note("printf_sites", np)
+	for _, o := range r.Obs {
+		if o.Rule == "PRINTF" && o.Verdict == VViolation {
+			return // a format without its arguments cannot be instantiated: the PRINTF report is the verdict
+		}
+	}
 	nd, ni := 0, 0
 	for _, rel := range goGenerators {
 		a, b := runTPLGo(w, r, rel, maxRep)
@@ -57,6 +66,7 @@ func checkC01(w *World, r *Result) {
 		declIDRule(w, r, rel)
 		genIDRule(w, r, rel)
 	}
+	genIDAccumulation(w, r)
 	n := stubTypeCheck(w, r)
 	r.note("stub_typechecked_instantiations", n)
 }
@@ -90,6 +100,19 @@ func printfRule(w *World, r *Result, rel string) int {
 			}
 			n++
 			format := constant.StringVal(tv.Value)
+			// %+q / %#q / %x of text are Go-specific spellings (\U0001d4b3, backquotes, hex): fine in Go sources, wrong in
+			// every other target language
+			if rel != "generator/go/gounions" && rel != "generator/go/randdata" && rel != "generator/go/sqlcrud" && fullName(calleeOf(info, call)) == "fmt.Sprintf" {
+				for _, m := range regexp.MustCompile(`%(\[\d+\])?[+#0 -]+[qsv]`).FindAllString(format, -1) {
+					fname := "?"
+					for _, fi := range sortedFuncs(w) {
+						if fi.Pkg == p && fi.Decl.Pos() <= call.Pos() && call.End() <= fi.Decl.End() {
+							fname = fi.Name
+						}
+					}
+					r.bad("PRINTF", fname, "verb "+m+" in "+strconv.Quote(strings.TrimSpace(format)), w.Pos(call.Pos()), "the flagged verb "+m+" prints Go-specific escapes (`%+q` writes a character outside the BMP as \\U0001d4b3, which JavaScript, Dart and SQL do not read as that character): text that Go emits verbatim no longer matches the generated literal")
+				}
+			}
 			nargs := len(call.Args) - first - 1
 			argi, maxUsed, reordered := 0, 0, false
 			missing := false
